@@ -20,7 +20,9 @@ there is a harness fault (inconclusive), not a lian violation.
 
 On a difference the kept files are decoded and the first differing table / row / column is the witness; the mechanism
 signature is `<artefact file stem>:<column or json key>:<dimension>` of the FIRST differing artefact in pipeline
-order (never a hash)."""
+order (module_symbols, then frontend/, semantic_p1/ … taint/), never a hash; instead of a column the middle part is
+`#row-order` when both tables hold the same rows in another order, `#rows` / `#columns` / `#missing` / `#bytes-only`
+for the corresponding structural differences, and `#outcome` when one run ended with an exception and the other did not."""
 import base64
 import json
 import os
@@ -90,10 +92,10 @@ def select_projects(tier, rng):
     thorough = tier == "thorough"
     gen_langs = list(P.LANGS)
     rng.shuffle(gen_langs)
-    n_gen = 21 if thorough else 2
+    n_gen = 14 if thorough else 2
     for i in range(n_gen):
         lang = gen_langs[i % len(gen_langs)]
-        g = P.gen_wide(lang, rng, n_funcs=rng.randint(8, 15) if thorough else rng.randint(6, 8),
+        g = P.gen_wide(lang, rng, n_funcs=rng.randint(8, 12) if thorough else rng.randint(6, 8),
                        n_classes=rng.randint(2, 5), n_files=rng.randint(2, 4))
         projs.append({"name": f"gen_wide_{lang}_{i}", "lang": lang, "files": pack_files(g["files"]), "settings": g["settings"],
                       "extra": [], "origin": "generated"})
@@ -110,11 +112,10 @@ def select_projects(tier, rng):
     if thorough:
         chosen = dirs + rng.sample(files, min(len(files), 62))
     else:
-        # two corpus directories and two single files, rotating with the seed
+        # one small corpus directory and one single corpus file, rotating with the seed
         rng.shuffle(dirs)
         small = [d for d in dirs if d["name"] in ("corpus_control_flows", "corpus_import_python", "corpus_dataflows_java",
-                                                  "corpus_dataflows_c", "corpus_import_js", "corpus_import_php",
-                                                  "corpus_import_java")]
+                                                  "corpus_import_js", "corpus_import_php", "corpus_import_java")]
         chosen = small[:1] + rng.sample(files, min(len(files), 1))
     for c in chosen:
         fs = read_tree(c["path"], c["lang"])
@@ -399,8 +400,8 @@ def judge_pair(chk, plan, results, pair, projs_by_name, stats):
             chk.note_inconclusive(f"job {jid}: harness {r['status']}: {str(r.get('error'))[:600]}")
             return None
     va, vb = ra["value"], rb["value"]
-    if va["src"] != vb["src"] and dim != "file-creation-order" or sorted(va["src"].values()) != sorted(vb["src"].values()):
-        chk.note_inconclusive(f"harness: {ida} and {idb} did not analyse the same files")
+    if va["src"] != vb["src"]:
+        chk.note_inconclusive(f"harness: {ida} and {idb} were not given the same input files")
         return None
     out = []
     if va["outcome"] != vb["outcome"]:
@@ -583,9 +584,9 @@ def main():
             elif r["value"]["run_s"] > 8.0 * max(1.0, (os.getloadavg()[0] / (os.cpu_count() or 16))):
                 p["heavy"] = True
         chk.extra["heavy_projects(reduced plan)"] = [p["name"] for p in projs if p.get("heavy")]
-    plan = build_plan([p for p in projs if p["name"] not in skipped], seeds, chk.tier, rng, root, tmpfs_root, 600 if thorough else 150, probe)
+    plan = build_plan([p for p in projs if p["name"] not in skipped], seeds, chk.tier, rng, root, tmpfs_root, 900 if thorough else 300, probe)
     n_jobs = sum(len(v) for v in plan.jobs.values()) + len(plan.done)
-    results.update(run_workers(plan, root, 3000 if thorough else 420, chk))
+    results.update(run_workers(plan, root, 3300 if thorough else 900, chk))
     chk.evaluated(len(results))
     slow = sorted(((r["wall"], r.get("value", {}).get("run_s") if r["status"] == "ok" else None,
                     r.get("value", {}).get("lock_wait") if r["status"] == "ok" else None, jid) for jid, r in results.items()), reverse=True)
@@ -670,7 +671,7 @@ def main():
         "separate processes = one forked child per analysis from a per-hash-seed zygote (lian imported once, YAML memo); a few true CLI runs per tier check that the forked run leaves the same bytes as `python src/lian/main.py run …`",
         "the 'random' hash seed is drawn from os.urandom once per check run and passed as an explicit PYTHONHASHSEED value so that a failing pair can be replayed",
         "workspaces of different runs at the same absolute path are serialised with a lock and the previous workspace is moved away before the next run",
-        "src/ and externs/ inside the workspace are copies of the input and of lian's own mock files, not analysis output: src/ is only used to confirm both runs analysed the same bytes",
+        "src/ and externs/ inside the workspace are copies of the input and of lian's own mock files, not analysis output, and are not compared; the harness confirms from the input directories themselves that both runs of a pair were given the same bytes",
     ]
     sys.exit(chk.finish())
 
